@@ -108,6 +108,12 @@ FAIL_PREDS = [
     ("unknown-instr", ["\tnosuchinstruction 1,2", "\tbyt 1"]),
     ("assume-6809", ["\tcpu 6809", "\tassume dpr:$12", "\tlda $1234"]),
     ("title-page", ["\ttitle \"abc\"", "\tpage 20,80", "\tnewpage"]),
+    # output that is queued for the code file when the file ends (relocation / export records behind the last code, in a file without code,
+    # under RORG): it must not turn up in the successor's code file
+    ("export-after-last-code", ["xs1:\tbyt 1", "\torg $2000", "\texport_sym xs1"]),
+    ("export-without-code", ["xs2\tequ 5", "\texport_sym xs2"]),
+    ("export-rorg-tail", ["\trorg $100", "xs3:\tbyt 1", "\trorg $200", "\texport_sym xs3"]),
+    ("extern-tail", ["\textern_sym xe1", "\tbyt 1", "\torg $300"]),
 ]
 
 # a successor that uses as many target-independent constructs as possible (conditional assembly incl. SWITCH/CASE, macros, repetitions,
@@ -429,7 +435,8 @@ def find_setters(bdir, wd, gens):
     return setters
 
 
-PRED_SIGS = {"dottedstructs": "core-not-reset-per-file:DottedStructs"}
+PRED_SIGS = {"dottedstructs": "core-not-reset-per-file:DottedStructs", "export-after-last-code": "export-pending-after-last-record",
+             "export-without-code": "export-pending-after-last-record", "export-rorg-tail": "export-pending-after-last-record"}
 LEAK_CLASSES = [(r"(?im)^\s*dottedstructs\s+on", "core-not-reset-per-file:DottedStructs", ["\tdottedstructs on"])]
 
 
@@ -475,7 +482,7 @@ def tests_by_cpu(tests):
 def run(args):
     global GEN_6502
     res = common.Result("C18", args.tier, args.seed, "proof")
-    bdir, audit, proof_problems = common.standard_setup(res, "C18", ["GenState", "GenStatics"])
+    bdir, audit, proof_problems = common.standard_setup(res, "C18", ["GenState", "GenStatics", "TargetDesc"])
     if bdir is None:
         return res.finish()
     drv_ok = not any(p.startswith("driver does not build") for p in proof_problems)
@@ -518,6 +525,8 @@ def run(args):
             for fn in sorted(os.listdir(cdir)):
                 if fn.endswith(".json"):
                     d = json.load(open(os.path.join(cdir, fn)))
+                    if d.get("kind") == "history":
+                        continue   # two-file witnesses, run by c18_targetdesc.py
                     key = (d["file"], d["var"])
                     if key in pidx:
                         i = pidx[key]
@@ -735,7 +744,7 @@ def run(args):
                 distinct.add("tail:" + pn)
                 if norm_passes(r0) != norm_passes(r1):
                     what = {"radix": "RadixBase", "outradix": "OutRadixBase", "dottedstructs": "DottedStructs"}.get(pn, pn)
-                    spec_fail.append(dict(tag="tail:" + pn, sig="core-not-reset-per-pass:" + what,
+                    spec_fail.append(dict(tag="tail:" + pn, sig=PRED_SIGS[pn] if pn.startswith("export") and pn in PRED_SIGS else "core-not-reset-per-pass:" + what,
                                           why="one forced further pass changes the result of a single file (state set by the last statements survives into the next pass)",
                                           source=tl, env="ASL_VERIF_EXTRA_PASSES=1", without=[r0[0], r0[1].decode(errors='replace'), _payload(r0[3])],
                                           with_extra_pass=[r1[0], r1[1].decode(errors='replace'), _payload(r1[3])]))
@@ -802,6 +811,13 @@ def run(args):
         evaluations += n_st
         dist["static_part_wall_s"] = round(_time.time() - _t0, 1)
 
+        # ---------------- core / shared-helper state no per-file path resets: target description, pending relocation output, byte-order flag
+        from . import c18_targetdesc
+        _t0 = _time.time()
+        n_td, targetdesc_ev = c18_targetdesc.run(bdir, wd, args, rng, spec_fail, corr_fail, proof_problems, dist, distinct, samples, drv_ok)
+        evaluations += n_td
+        dist["targetdesc_part_wall_s"] = round(_time.time() - _t0, 1)
+
     if os.environ.get("C18_DEBUG"):
         with open(os.environ["C18_DEBUG"], "w") as fh:
             json.dump(dict(spec=spec_fail, corr=corr_fail, proof=proof_problems), fh, indent=1, default=str)
@@ -811,13 +827,18 @@ def run(args):
         "hand-written classification CORE_CLASSES of 19 core variables",
         "translate/statics.py (clang-14 JSON AST of every code*.c: class scratch / config / persistent of every file-scope and function-static variable by a flow-sensitive "
         "written-before-read analysis with per-function summaries; reset flags as above) and the justified exception list of Props/C18_Statics.lean / c18_statics.py",
+        "translate/targetdesc.py (clang-14 JSON AST of every code*.c: abstract interpretation of every function registered as CPU switch function - per path class the segments "
+        "named in ValidSegs assignments and the elements of Grans/ListGrans/SegInits/SegLimits and the scalars assigned; dumper linked against the current build's objects: the description "
+        "after `cpu <name>` for every CPU name, poisoned between the lines with two different values; the two routes are cross-checked) and the exception lists of "
+        "Props/C18_TargetDesc.lean / c18_targetdesc.py",
+        "correspondence: real asl vs Model.TargetDesc (label values, error flag) and Model.SharedState (records with exports) on generated histories (differential test)",
         "correspondence: real asl vs Model.Files on probe histories (differential test); probes calibrated on the real binary each run",
         "differential part (labelled): golden-corpus pairs/triples and generated predecessors, `asl a b` vs `asl a`, `asl b`"])
     res.coverage.update(
         evaluations=evaluations, distinct_nontrivial=len(distinct),
         rule="one evaluation = one joint run `asl f1..fn` (n >= 2, or n = 1 with a forced further pass) compared file by file with the single runs; "
              "distinct by (ordered) file list / op list; non-trivial = at least two files or a forced pass",
-        samples=samples, distribution=dist, inventory_not_reset=unreset_inv, statics=statics_ev,
+        samples=samples, distribution=dist, inventory_not_reset=unreset_inv, statics=statics_ev, target_description=targetdesc_ev,
         core_vars_needing_per_pass_reset=[r["var"] for r in core_rows if r["cls"] == "perpass"])
     res.assumptions = ["the state of a code generator is its file-scope and function-static variables (Generated/GenStatics, all code*.c) plus what its ASSUMERec tables, AddONOFF calls, "
                        "tCPUArg tables and a pASSUMEOverride handler reach (Generated/GenState); statics of the shared *pseudo.c helpers are covered only by the differential histories",
@@ -825,6 +846,10 @@ def run(args):
                        "entry points - after a call that is certainly made and may write the variable (rule `call`: `DecodeAdr(...); if (AdrMode == ModX) use(AdrPart)`); "
                        "a value that is only read under a guard established in the same statement is not recognised and is listed as a justified exception",
                        "a syntactic assignment on the init path counts as a reset (not checked: that it is unconditional and assigns a constant)",
+                       "target description: an element counts as assigned only with a constant / enumeration-constant / counting-loop index; the scalars checked are those SetCPUCore does not reset "
+                       "itself; Grans/ListGrans of a segment are checked statically and by the dumper only (no behavioural history writes data into every segment of every target); "
+                       "label values are observed through MESSAGE, targets whose code generator moves labels itself (probed: XA in CODE) get even addresses only",
+                       "statics of shared helper modules other than asmcode.c PatchList/ExportList and motpseudo.c M16Turn are covered by the data-statement histories only (differential)",
                        "forced further passes use hook H1 (ASL_VERIF_EXTRA_PASSES)", "golden tests with non-empty asflags (9 of 201) are left out"]
     return common.conclude(res, proof_problems, spec_fail, corr_fail, evaluations)
 
